@@ -69,6 +69,11 @@ func (a announce) payload() []byte {
 func genAnnounce(c *harness.Ctx) announce {
 	a := announce{node: nodePool[c.Choose(len(nodePool), "node")]}
 	a.kind = c.C.Weighted("ann-kind", 7, 3, 2, 1)
+	if c.Cfg["pure"] != "" {
+		// only valid announcements and deletions (the histories on which convergence is asserted)
+		a.kind = c.C.Weighted("ann-kind-pure", 3, 2)
+		a.node = nodePool[c.Choose(2, "node-pure")]
+	}
 	if a.kind == 2 && c.Bool("malformed-shape") {
 		a.hosts = map[string]float64{"x": 1} // marks the "one bad host among several" shape
 	}
